@@ -369,8 +369,10 @@ def main(ctx, replay):
     cov["mcp_audit_life"] = life_stats
     # every call of a queue-mutation tool appends exactly one audit record, whatever it matched (real MCP server on a real database)
     from lib import c14admin
+    proxy_probe = c14admin.audit_probe_proxy(ctx, info, rng, start_only=True)     # Admin-proxy mode, in the background (one call waits 5 s)
     audit_stats = c14admin.audit_probe(ctx, info, rng)
     cov.update(audit_stats)
+    cov.update(c14admin.audit_probe_proxy(ctx, info, rng, handle=proxy_probe))
     cov.update({
         "evaluations": evaluations,
         "distinct_nontrivial": len(nontrivial),
